@@ -22,7 +22,7 @@ Proof.
   destruct (negb (is_rev k')); [destruct Hin|].
   destruct (mem (k_mat k') tombs); [destruct Hin|].
   destruct (ident_existing ksk t0 k'); [destruct Hin|].
-  destruct (lookup (sub16 t0 go_stage_tag_delta) ksk) as [old|]; [|destruct Hin].
+  destruct (lookup (tag (unrev k')) ksk) as [old|]; [|destruct Hin].
   destruct (negb (is_trusted_st old)); [destruct Hin|].
   destruct (negb (same_except_revoke (ta_key old) k')); [destruct Hin|].
   destruct Hin as [H|[]]. inversion H as [[H1 H2]]. subst t0. exists k'. split; [exact Ef|reflexivity].
@@ -69,18 +69,18 @@ Definition PV (s : pst) : Prop :=
   (forall x tb, In (x, tb) (p_tombs s) -> tomb_origin x tb) /\
   (forall x, mem x tombs2 = true -> mem x (p_tombs s) = true).
 
-Lemma process_one_PV s t : PV s -> PV (process_one now ro fm staged s t).
+Lemma process_one_PV s t : PV s -> PV (process_one tag now ro fm staged s t).
 Proof.
   intros (Hk & Ht & Hm). unfold process_one.
   destruct (lookup t fm) as [k|] eqn:Ef; [|repeat split; assumption].
   destruct (mem (k_mat k) (p_tombs s)) eqn:Em; [repeat split; assumption|].
   destruct (ident_existing (p_ksk s) t k); [repeat split; assumption|].
   destruct (is_rev k) eqn:Er.
-  - destruct (lookup (sub16 t go_revoke_tag_delta) (p_ksk s)) as [old|] eqn:Eo; [|repeat split; assumption].
+  - destruct (lookup (tag (unrev k)) (p_ksk s)) as [old|] eqn:Eo; [|repeat split; assumption].
     destruct (is_trusted_st old && same_except_revoke (ta_key old) k && staged_ok staged t) eqn:Ec; [|repeat split; assumption].
     apply andb_true_iff in Ec. destruct Ec as [Ec Hst]. apply andb_true_iff in Ec. destruct Ec as [Htr Hse].
     apply staged_ok_spec in Hst. destruct Hst as (k' & Hk' & Hv). fold fm in Hk'. rewrite Ef in Hk'. inversion Hk'; subst k'.
-    assert (Hold : In (sub16 t go_revoke_tag_delta, old) ksk2).
+    assert (Hold : In (tag (unrev k), old) ksk2).
     { apply lookup_in in Eo. destruct (Hk _ _ Eo) as [H|a k' _ _ _ ->|k0 _ _ _ _ ->]; [exact H|cbn in Htr; discriminate|cbn in Htr; discriminate]. }
     assert (Hrev : revokes old k).
     { split; [apply (fetched_map_in keys t k Ef)|]. split; [exact Er|]. split; assumption. }
@@ -88,7 +88,7 @@ Proof.
     + intros x b Hin. apply in_set in Hin. destruct Hin as [[-> ->]|[Hin _]]; [|apply Hk; exact Hin].
       eapply OrigRevoked; [exact Hold|exact Htr|exact Hrev|reflexivity].
     + intros x tb Hin. apply in_set in Hin. destruct Hin as [[-> ->]|[Hin _]]; [|apply Ht; exact Hin].
-      right. exists old, (sub16 t go_revoke_tag_delta), k. repeat split; try assumption; apply Hrev.
+      right. exists old, (tag (unrev k)), k. repeat split; try assumption; apply Hrev.
     + intros x Hx. apply mem_set_mono. apply Hm. exact Hx.
   - destruct ro eqn:Ero; [repeat split; assumption|].
     destruct (lookup t (p_ksk s)) eqn:El; [repeat split; assumption|]. cbn. split; [|split; assumption].
@@ -97,7 +97,7 @@ Proof.
     destruct (mem (k_mat k) tombs2) eqn:E2; [|reflexivity]. rewrite (Hm _ E2) in Em. discriminate.
 Qed.
 
-Lemma process_PV : PV (process now ro fm staged tags (mk_pst ksk2 tombs2 false [])).
+Lemma process_PV : PV (process tag now ro fm staged tags (mk_pst ksk2 tombs2 false [])).
 Proof.
   unfold process. apply (fold_left_inv PV).
   - split; [|split]; cbn; [intros; apply OrigSame; assumption|intros; left; assumption|auto].
@@ -108,14 +108,14 @@ Qed.
 Lemma process_one_untouched s t t0 a :
   lookup t0 (p_ksk s) = Some a ->
   (forall t' k, lookup t' fm = Some k -> is_rev k = true -> same_except_revoke (ta_key a) k = false) ->
-  lookup t0 (p_ksk (process_one now ro fm staged s t)) = Some a.
+  lookup t0 (p_ksk (process_one tag now ro fm staged s t)) = Some a.
 Proof.
   intros Hl Hno. unfold process_one.
   destruct (lookup t fm) as [k|] eqn:Ef; [|exact Hl].
   destruct (mem (k_mat k) (p_tombs s)); [exact Hl|].
   destruct (ident_existing (p_ksk s) t k); [exact Hl|].
   destruct (is_rev k) eqn:Er.
-  - destruct (lookup (sub16 t go_revoke_tag_delta) (p_ksk s)) as [old|] eqn:Eo; [|exact Hl].
+  - destruct (lookup (tag (unrev k)) (p_ksk s)) as [old|] eqn:Eo; [|exact Hl].
     destruct (is_trusted_st old && same_except_revoke (ta_key old) k && staged_ok staged t) eqn:Ec; [|exact Hl].
     cbn [p_ksk]. rewrite lookup_set_neq; [exact Hl|]. intros E. rewrite E in Eo. rewrite Hl in Eo. inversion Eo; subst old.
     apply andb_true_iff in Ec. destruct Ec as [Ec _]. apply andb_true_iff in Ec. destruct Ec as [_ Hse].
@@ -127,7 +127,7 @@ Qed.
 Lemma process_untouched s t0 a :
   lookup t0 (p_ksk s) = Some a ->
   (forall t' k, lookup t' fm = Some k -> is_rev k = true -> same_except_revoke (ta_key a) k = false) ->
-  lookup t0 (p_ksk (process now ro fm staged tags s)) = Some a.
+  lookup t0 (p_ksk (process tag now ro fm staged tags s)) = Some a.
 Proof.
   intros Hl Hno. unfold process.
   apply (fold_left_inv (fun s => lookup t0 (p_ksk s) = Some a)); [exact Hl|].
@@ -138,26 +138,24 @@ End Loop.
 
 (* ---- the KeyRem / KeyPres / hold-down loop, entry by entry *)
 Inductive kr_case (now : Z) (fm : list (N * key)) (t : N) (a b : ta) : Prop :=
-| KrSame : b = a -> (ta_st a = SAddPend -> lookup t fm <> None /\ (now - ta_fs a <= hold_add)%Z) ->
-           (ta_st a = SValid -> lookup t fm <> None) ->
-           (ta_st a = SMissing -> lookup t fm = None /\ (now - ta_fs a <= hold_rem)%Z) -> kr_case now fm t a b
-| KrMissing : ta_st a = SValid -> lookup t fm = None -> b = mk_ta (ta_key a) SMissing now -> kr_case now fm t a b
-| KrPromoted : ta_st a = SAddPend -> lookup t fm <> None -> (now - ta_fs a > hold_add)%Z ->
+| KrSame : b = a -> (ta_st a = SAddPend -> fm_has fm t a = true /\ (now - ta_fs a <= hold_add)%Z) ->
+           (ta_st a = SValid -> fm_has fm t a = true) ->
+           (ta_st a = SMissing -> fm_has fm t a = false /\ (now - ta_fs a <= hold_rem)%Z) -> kr_case now fm t a b
+| KrMissing : ta_st a = SValid -> fm_has fm t a = false -> b = mk_ta (ta_key a) SMissing now -> kr_case now fm t a b
+| KrPromoted : ta_st a = SAddPend -> fm_has fm t a = true -> (now - ta_fs a > hold_add)%Z ->
                b = mk_ta (ta_key a) SValid (ta_fs a) -> kr_case now fm t a b
-| KrReappeared : ta_st a = SMissing -> lookup t fm <> None -> b = mk_ta (ta_key a) SValid (ta_fs a) -> kr_case now fm t a b.
+| KrReappeared : ta_st a = SMissing -> fm_has fm t a = true -> b = mk_ta (ta_key a) SValid (ta_fs a) -> kr_case now fm t a b.
 
 Lemma keyrem_one_cases now fm t a x b : In (x, b) (keyrem_one now fm (t, a)) -> x = t /\ kr_case now fm t a b.
 Proof.
   pose proof hold_rem_pos as Hr.
-  unfold keyrem_one. cbn [fst snd]. destruct a as [k s0 fs]. cbn [ta_st ta_key ta_fs].
-  destruct (lookup t fm) eqn:Ef; destruct s0; cbn [ta_st ta_key ta_fs].
+  unfold keyrem_one. cbn [fst snd]. destruct (fm_has fm t a) eqn:Ef; destruct a as [k s0 fs]; cbn [ta_st ta_key ta_fs];
+    destruct s0; cbn [ta_st ta_key ta_fs].
   all: repeat match goal with |- context [(?c >? ?d)%Z] => destruct (Z.gtb_spec c d) end.
   all: cbn; intros Hin; repeat (destruct Hin as [Hin|Hin]; [inversion Hin; subst; split; [reflexivity|]|]); try destruct Hin.
-  all: try (apply KrSame; [reflexivity|cbn; intros; try discriminate; split; [congruence|lia]..]; fail).
-  all: try (apply KrSame; [reflexivity|cbn; intros; try discriminate; try congruence; try (split; [congruence|lia])..]; fail).
-  all: try (apply KrPromoted; cbn; [reflexivity|congruence|lia|reflexivity]; fail).
-  all: try (apply KrReappeared; cbn; [reflexivity|congruence|reflexivity]; fail).
-  all: try (apply KrMissing; cbn; [reflexivity|reflexivity|reflexivity]; fail).
+  all: try (apply KrSame; [reflexivity|cbn; intros; try discriminate; try assumption; try (split; [assumption|lia])..]; fail).
+  all: try (apply KrPromoted; cbn; [reflexivity|assumption|lia|reflexivity]; fail).
+  all: try (apply KrReappeared; cbn; [reflexivity|assumption|reflexivity]; fail).
   all: try (apply KrMissing; cbn; [reflexivity|assumption|reflexivity]; fail).
   all: try lia.
 Qed.
